@@ -53,7 +53,20 @@ def run_local(case: Dict[str, Any], strategy: Any, workdir: str, n: int) -> Dict
     with GlobalPatch() as gp, SchedEnv(sched, None, None):
         gp.set(fl, "os", ModuleProxy(os, {"open": gated("open", os.open), "close": gated("close", os.close),
                                           "unlink": gated("unlink", os.unlink)}))
-        gp.set(fl, "fcntl", ModuleProxy(real_fcntl, {"flock": gated("flock", real_fcntl.flock)}))
+        ff = {"left": 1 if case.get("flock_fault") else 0}
+
+        def faulty_flock(fd: int, op: int) -> Any:
+            # a transient kernel error on ONE contended lock attempt (ENOLCK: lock table full; EOPNOTSUPP/ENOSYS as
+            # some network file systems answer under load) - never a reason to treat the lock as acquired
+            me = sched.me()
+            if ff["left"] and me is not None and me.name == "B" and (op & real_fcntl.LOCK_EX) and any(holding.values()):
+                ff["left"] -= 1
+                sched.count("flock_faults")
+                import errno as _errno
+                raise OSError(getattr(_errno, case["flock_fault"]), "injected transient flock failure")
+            return real_fcntl.flock(fd, op)
+
+        gp.set(fl, "fcntl", ModuleProxy(real_fcntl, {"flock": gated("flock", faulty_flock)}))
 
         def contender(name: str, role: str) -> Any:
             lock = fl.FileLock(path, timeout=timeout)
@@ -435,6 +448,10 @@ class C19(Check):
             for sh in range(4):
                 yield {"part": "local", "roles": roles, "k": k, "shard": sh, "nshards": 4,
                        "reacquire": roles == ["plain", "plain"], "max_runs": 500 if q else 6000}
+        for errname in ("ENOLCK", "EOPNOTSUPP", "EINTR"):
+            for sh in range(2):
+                yield {"part": "local", "roles": ["plain", "plain"], "k": k, "shard": sh, "nshards": 2, "reacquire": False,
+                       "max_runs": 400 if q else 4000, "flock_fault": errname, "timeout": 5.0}
         for roles in (["plain", "plain", "plain"], ["hog", "plain", "plain"]):
             nsh = 8 if q else 32
             for sh in range(nsh):
@@ -454,12 +471,18 @@ class C19(Check):
             nsh = 8
             for sh in range(nsh):
                 yield dict(cfg, part="s3", k=k, shard=sh, nshards=nsh, max_runs=250 if q else 5000)
+        # the lease arithmetic compares the store's UTC LastModified with the local clock: non-UTC process zones
+        for z in ("JST-9", "EST5"):
+            for sh in range(4):
+                yield {"n": 2, "clock_steps": 1, "hb_steps": 0, "part": "s3", "k": 1, "shard": sh, "nshards": 4,
+                       "max_runs": 250 if q else 5000, "tz": z}
         for cfg in ({"n": 3, "clock_steps": 1, "hb_steps": 0},):
             nsh = 16
             for sh in range(nsh):
                 yield dict(cfg, part="s3", k=2, shard=sh, nshards=nsh, max_runs=250 if q else 3000)
         for i in range(64 if q else 1500):
-            yield {"part": "s3seq", "n": 2 + (i % 2), "len": 14 + (i % 3) * 6, "seed": seed * 1000003 + i, "programs": 40}
+            yield {"part": "s3seq", "n": 2 + (i % 2), "len": 14 + (i % 3) * 6, "seed": seed * 1000003 + i, "programs": 40,
+                   "tz": [None, "JST-9", "EST5", "CET-1CEST,M3.5.0,M10.5.0/3"][i % 4]}
         nrand = 32 if q else 400
         for i in range(nrand):
             rng = rng_for(seed, "c19r", i)
@@ -524,7 +547,7 @@ class C19(Check):
         res.count(f"{kind}_executions")
         res.count("takeovers", r["counters"].get("takeovers", 0))
         res.count("lease_expiries", r["counters"].get("lease_expiries", 0))
-        for cname in ("heartbeats", "renewal_faults", "wrongful_deletes"):
+        for cname in ("heartbeats", "renewal_faults", "wrongful_deletes", "flock_faults"):
             if r["counters"].get(cname):
                 res.count(cname, r["counters"][cname])
         nt = sum(1 for e in r["events"] if e.get("outcome") == "timeout")
